@@ -38,6 +38,8 @@ js::Value SeqPlan::to_json() const
             o.set("splice", true);
         if (st.probe_nonlive)
             o.set("probe_nonlive", true);
+        if (st.drift_ns)
+            o.set("drift_ns", st.drift_ns);
         s.push(std::move(o));
     }
     v.set("steps", std::move(s));
@@ -70,6 +72,7 @@ bool SeqPlan::from_json(const js::Value& v)
                 st.adv_ns = 0;
             st.splice        = o.getb("splice");
             st.probe_nonlive = o.getb("probe_nonlive");
+            st.drift_ns      = std::max<int64_t>(0, o.geti("drift_ns"));
             steps.push_back(std::move(st));
         }
     return true;
@@ -489,7 +492,9 @@ struct SeqRun
         if (it == writes.end())
             fail({"C01"}, "lookup.unknown_value", base + " (never written)", true);
         else if (it->second.key != k)
-            fail({"C01"}, "lookup.other_keys_value", base + " (written under key " + std::to_string(it->second.key) + ")", true);
+            // the key is served from another key's slot: its own entry has left the container although no erase,
+            // eviction or expiry removed it, which is C03's claim as well
+            fail({"C01", "C03"}, "lookup.other_keys_value", base + " (written under key " + std::to_string(it->second.key) + ")", true);
         else if (!it->second.accepted)
             fail({"C09"}, "allow.rejected_write_visible", base + " (value of a rejected insert)", true);
         else if (live[k].last_write_update)
@@ -524,12 +529,22 @@ struct SeqRun
 
     // Probes every model-live key on S (and the same keys on R / D, comparing).
     // Returns the set of live keys that were not found.
-    std::set<int> probe_live(const char* phase)
+    // `sampled`: with many residents, and when nothing may leave (no eviction due), only `focus_key` and a
+    // spread of the others are looked up; the probe at the end of the step is always complete.
+    std::set<int> probe_live(const char* phase, bool sampled = false, int focus_key = -1)
     {
         std::set<int> missing;
+        size_t        stride = 1, off = 0, idx = 0;
+        if (sampled && live.size() > 64)
+        {
+            stride = live.size() / 8;
+            off    = (size_t)(st.calls % stride);
+        }
         for (auto& kv : live)
         {
             int   k = kv.first;
+            if (stride > 1 && k != focus_key && (idx++ % stride) != off)
+                continue;
             Found f = quiet_find(*S, k);
             eval("C01");
             if (!f.hit)
@@ -788,10 +803,15 @@ struct SeqRun
         const bool  isZ    = !isLive && zomb.count(k) != 0;
         const Obs   o0     = read_obs(*S);
         const int64_t z0   = is_ttl() ? o0.size - (int64_t)live.size() : 0;
-        const auto  L0     = live;
-        std::set<int> L0k;
-        for (auto& kv : L0)
-            L0k.insert(kv.first);
+        // the residents before the call: only needed to judge a victim, i.e. when the cache is full
+        std::map<int, MEntry> L0;
+        std::set<int>         L0k;
+        if (tr.has_capacity && o0.size == (int64_t)cfg.capacity)
+        {
+            L0 = live;
+            for (auto& kv : L0)
+                L0k.insert(kv.first);
+        }
 
         ++st.calls;
         ++s_calls_step;
@@ -955,7 +975,7 @@ struct SeqRun
 
         const Obs o1 = read_obs(*S);
         // Retention analysis needs the set of live keys that vanished.
-        std::set<int> missing = probe_live("after insert");
+        std::set<int> missing = probe_live("after insert", !(created && full) || (is_ttl() && z0 > 0), k);
         if (failed())
             return res;
         // the key just written must be there (it is part of `live` unless dead on arrival)
@@ -1193,7 +1213,7 @@ struct SeqRun
             }
             twin_probe(k, f, "after erase");
         }
-        std::set<int> missing = probe_live("after erase");
+        std::set<int> missing = probe_live("after erase", true, k);
         if (failed())
             return res;
         eval("C03");
@@ -1611,7 +1631,21 @@ struct SeqRun
             if (R)
             {
                 ++st.calls;
+                // fault: the clock moves on between two reads inside the range call (it always does on a real
+                // machine).  The call as a whole must still judge every element at one instant; the first read
+                // returns the step's instant, so a call that reads the clock once is not affected at all.
+                if (stp.drift_ns)
+                {
+                    sched::clock_drift(stp.drift_ns);
+                    st.bump("fault.clock_moves_between_reads_in_range_call");
+                }
                 Result rr = R->exec(op);
+                if (stp.drift_ns)
+                {
+                    if (sched::clock_drift_reads() > 1)
+                        st.bump("probe.range_call_read_clock_more_than_once");
+                    sched::clock_drift(0);
+                }
                 note(rr);
                 eval("C18");
                 nt("C18");
